@@ -148,7 +148,22 @@ func init() {
 			}
 			return false
 		},
-		RequiredReach: []string{"c01_ok_password", "c01_ok_otp", "c01_ok_rm", "c01_ok_recover", "c01_ok_oauth2", "c01_ok_register", "c01_ok_2fa_pending"},
+		// one run in eight lets several browsers post the login form for one
+		// account at the same time (c01conc.go); the others are sequential histories
+		Run: func(t *testing.T, seed uint64, tier string) *RunResult {
+			if seed%8 == 0 {
+				return c01ConcExec(t, c01ConcGenerate(seed, tier), false)
+			}
+			return profiles["C01"].defaultRun(t, seed, tier)
+		},
+		Replay: func(t *testing.T, plan Plan, keepTrace bool) *RunResult {
+			if plan.Mode == "c01conc" {
+				return c01ConcExec(t, plan, keepTrace)
+			}
+			return profiles["C01"].defaultReplay(t, plan, keepTrace)
+		},
+		RequiredReach: []string{"c01_ok_password", "c01_ok_otp", "c01_ok_rm", "c01_ok_recover", "c01_ok_oauth2", "c01_ok_register", "c01_ok_2fa_pending",
+			"c01_conc_right_accepted", "c01_conc_wrong_refused"},
 	})
 
 	withW := func(base map[string]int, over map[string]int) map[string]int {
